@@ -108,3 +108,16 @@ Theorem C02_no_output_yielded_more_often_than_produced :
   count_occ tok_eq_dec (handed_in P init_state ops) t <= count_occ tok_eq_dec (produced_in P init_state ops) t.
 Proof. exact handed_out_at_most_as_often_as_produced. Qed.
 Print Assumptions C02_no_output_yielded_more_often_than_produced.
+
+(** a stream that holds nothing (no future, no parked output - what is_terminated reports) answers
+    None, and keeps holding nothing: in every reachable state of every history *)
+From FB Require Import ObserveProofs.
+Theorem C02_terminated_stream_answers_none :
+  forall (P : params), params_ok P -> forall (ops : list op) (t : nat) (i : injection),
+  let k := st_coll (reach P ops) in
+  (match k with CFub _ | CFu _ | CFob _ | CFo _ | CMu _ => True | _ => False end) ->
+  in_crate k = 0 ->
+  let '(k', w') := do_poll P t k (begin_op i (st_world (reach P ops))) in
+  in_crate k' = 0 /\ exists l, log w' = ERet RetNone :: l.
+Proof. exact terminated_stream_answers_none. Qed.
+Print Assumptions C02_terminated_stream_answers_none.
